@@ -296,7 +296,7 @@ theorem loadOptionUnmarshal_size {bs : Bytes} {lo : LoadOption} (h : loadOptionU
         all_goals simp at h
       all_goals simp at h
 
-theorem bootOrder_length (bs : Bytes) : (bootOrder bs).length = (bs.length + 1) / 2 := by
+theorem bootOrder_length (bs : Bytes) : (bootOrder bs).length = bs.length / 2 := by
   induction bs using bootOrder.induct with
   | case1 a b r ih => simp only [bootOrder, List.length_cons, ih]; omega
   | case2 a => simp [bootOrder]
@@ -310,7 +310,7 @@ theorem bootOrder_names (bs : Bytes) : ∀ n ∈ bootOrder bs, n.length = 8 := b
     rcases hn with rfl | hn
     · rfl
     · exact ih n hn
-  | case2 a => intro n hn; simp only [bootOrder, List.mem_singleton] at hn; subst hn; rfl
+  | case2 a => intro n hn; simp [bootOrder] at hn
   | case3 => intro n hn; simp [bootOrder] at hn
 
 theorem hdText_length_pos (part : Nat) (start size sig : Bytes) (st : Nat) :
